@@ -6,42 +6,49 @@
 (* that a finite log can refute is a guard below.                             *)
 EXTENDS Integers, FiniteSets, Sequences, TLC, Json
 CONSTANT MaxTasks
-VARIABLES cap, st, ret, pan, handled, waitset, waiter, l
+VARIABLES cap, st, ret, pan, handled, waitset, waiter, l,
+          cfgh, hat     \* the handler configured now, and the one that was configured when each function was submitted
 Trace == ndJsonDeserialize("trace.ndjson")
 Ev == Trace[l]
 T == 1..MaxTasks
 Inside == {t \in T : st[t] = "in"}
 
 Init == /\ l = 1 /\ cap = 3 /\ st = [t \in T |-> "none"] /\ ret = {} /\ pan = {} /\ handled = {} /\ waitset = {} /\ waiter = "idle"
+        /\ cfgh = 0 /\ hat = [t \in T |-> 0]
 New == /\ Ev.ev = "new" /\ cap' = (IF Ev.n < 1 THEN 3 ELSE Ev.n)
        /\ st' = [t \in T |-> "none"] /\ ret' = {} /\ pan' = {} /\ handled' = {} /\ waitset' = {} /\ waiter' = "idle"
+       /\ cfgh' = 0 /\ hat' = [t \in T |-> 0]
+\* SetPanicHandler between submissions (by the submitting goroutine): later submissions report to the new handler
+SetHandler == /\ Ev.ev = "sethandler" /\ cfgh' = Ev.h /\ UNCHANGED <<cap, st, ret, pan, handled, waitset, waiter, hat>>
 GoCall == /\ Ev.ev = "gocall" /\ st[Ev.i] = "none" /\ st' = [st EXCEPT ![Ev.i] = "called"]
-          /\ UNCHANGED <<cap, ret, pan, handled, waitset, waiter>>
+          /\ hat' = [hat EXCEPT ![Ev.i] = cfgh]
+          /\ UNCHANGED <<cap, ret, pan, handled, waitset, waiter, cfgh>>
 GoRet == /\ Ev.ev = "goret" /\ st[Ev.i] # "none" /\ ret' = ret \cup {Ev.i}
-         /\ UNCHANGED <<cap, st, pan, handled, waitset, waiter>>
+         /\ UNCHANGED <<cap, st, pan, handled, waitset, waiter, cfgh, hat>>
 \* a submitted function starts: exactly once, and never while `cap` functions are inside
 Enter == /\ Ev.ev = "enter" /\ st[Ev.i] = "called"
          /\ Cardinality(Inside) < cap
-         /\ st' = [st EXCEPT ![Ev.i] = "in"] /\ UNCHANGED <<cap, ret, pan, handled, waitset, waiter>>
+         /\ st' = [st EXCEPT ![Ev.i] = "in"] /\ UNCHANGED <<cap, ret, pan, handled, waitset, waiter, cfgh, hat>>
 Exit == /\ Ev.ev = "exit" /\ st[Ev.i] = "in" /\ st' = [st EXCEPT ![Ev.i] = "out"]
         /\ pan' = (IF Ev.panic THEN pan \cup {Ev.i} ELSE pan)
-        /\ UNCHANGED <<cap, ret, handled, waitset, waiter>>
+        /\ UNCHANGED <<cap, ret, handled, waitset, waiter, cfgh, hat>>
 \* the handler receives exactly the value a finished function panicked with, once
 Handler == /\ Ev.ev = "handler" /\ Ev.v \in pan /\ Ev.v \notin handled /\ handled' = handled \cup {Ev.v}
-           /\ UNCHANGED <<cap, st, ret, pan, waitset, waiter>>
+           /\ ("h" \in DOMAIN Ev => Ev.h = hat[Ev.v])      \* ... by the handler configured when the function was submitted
+           /\ UNCHANGED <<cap, st, ret, pan, waitset, waiter, cfgh, hat>>
 WaitCall == /\ Ev.ev = "waitcall" /\ waiter' = "waiting" /\ waitset' = ret
-            /\ UNCHANGED <<cap, st, ret, pan, handled>>
+            /\ UNCHANGED <<cap, st, ret, pan, handled, cfgh, hat>>
 \* Wait returns only after every function submitted before the call has finished (and its panic was handled)
 WaitRet == /\ Ev.ev = "waitret" /\ waiter = "waiting"
            /\ \A t \in waitset : st[t] = "out" /\ (t \in pan => t \in handled)
-           /\ waiter' = "returned" /\ UNCHANGED <<cap, st, ret, pan, handled, waitset>>
+           /\ waiter' = "returned" /\ UNCHANGED <<cap, st, ret, pan, handled, waitset, cfgh, hat>>
 \* end of a scenario (the driver has opened every gate, Wait has returned, the n probe tasks that
 \* test for leaked slots have all been inside together): everything submitted has run exactly once
 End == /\ Ev.ev = "end" /\ \A t \in T : st[t] \in {"none", "out"} /\ (t \in pan => t \in handled)
        /\ Ev.submitted = Cardinality({t \in T : st[t] = "out"})
-       /\ UNCHANGED <<cap, st, ret, pan, handled, waitset, waiter>>
-Next == l <= Len(Trace) /\ l' = l + 1 /\ (New \/ GoCall \/ GoRet \/ Enter \/ Exit \/ Handler \/ WaitCall \/ WaitRet \/ End)
-vars == <<cap, st, ret, pan, handled, waitset, waiter, l>>
+       /\ UNCHANGED <<cap, st, ret, pan, handled, waitset, waiter, cfgh, hat>>
+Next == l <= Len(Trace) /\ l' = l + 1 /\ (New \/ SetHandler \/ GoCall \/ GoRet \/ Enter \/ Exit \/ Handler \/ WaitCall \/ WaitRet \/ End)
+vars == <<cap, st, ret, pan, handled, waitset, waiter, l, cfgh, hat>>
 Spec == Init /\ [][Next]_vars
 Accepted == TLCGet("stats").diameter - 1 = Len(Trace)
 =============================================================================
